@@ -210,7 +210,7 @@ class DSession:
         self._ev({"a": "QueryArg", "q": "min_start_time", "j": 1, "p": 1, "m": 0, "L": [list(o) for o in ops],
                   "out": out, "res": val if out == "ok" else 0})
 
-    def query_arg(self, q, j, p, m=0):
+    def query_arg(self, q, j, p, m=0, after_reject=False):
         d = self.dispatcher
         op = self._op(j, p)
         if q == "is_scheduled":
@@ -225,8 +225,10 @@ class DSession:
             out, val = _outcome(lambda: model.op_ref(d.next_operation(j - 1)))
         else:
             raise ValueError(q)
-        self._ev({"a": "QueryArg", "q": q, "j": j, "p": p, "m": m, "out": out,
-                  "res": val if out == "ok" else 0})
+        ev = {"a": "QueryArg", "q": q, "j": j, "p": p, "m": m, "out": out, "res": val if out == "ok" else 0}
+        if after_reject:
+            ev["after_reject"] = True
+        self._ev(ev)
 
     def apply_filter(self, names, ops):
         f = model.make_filter(names)
@@ -239,23 +241,27 @@ class DSession:
                   "out": out, "res": [model.op_ref(o) for o in val] if out == "ok" else [],
                   "res_first": [model.op_ref(o) for o in val1] if out1 == "ok" else []})
 
-    def create(self, o):
+    def create(self, o, detached=False):
         kind = self.kinds[o - 1]
         d = self.dispatcher
+        sub = not detached
 
         def mk():
             if kind == "rec":
-                return Rec(d, session=self, oid=o)
+                return Rec(d, session=self, oid=o, subscribe=sub)
             if kind == "hist":
-                return HistoryObserver(d)
+                return HistoryObserver(d, subscribe=sub)
             if kind == "histsub":
-                return HistSub(d, session=self, oid=o)
+                return HistSub(d, session=self, oid=o, subscribe=sub)
             raise ValueError(kind)
 
         out, obj = _outcome(mk)
         if out == "ok":
             self.pool[o] = obj
-        self._ev({"a": "Create", "o": o, "k": kind, "out": out})
+        ev = {"a": "Create", "o": o, "k": kind, "out": out}
+        if detached:
+            ev["detached"] = True
+        self._ev(ev)
 
     def unsubscribe(self, o):
         obj = self.pool.get(o)
@@ -463,7 +469,8 @@ class DSession:
         hobs = [o for o in self.dispatcher.subscribers if isinstance(o, HistoryObserver)]
         if not hobs:
             return
-        history = list(hobs[0].history)
+        # the list object itself, as a caller holding `observer.history` would keep it (fresh: a copy is enough)
+        history = hobs[0].history if mode == "reset" else list(hobs[0].history)
 
         def go():
             if mode == "fresh":
@@ -471,7 +478,7 @@ class DSession:
             else:
                 d = self.dispatcher
                 d.reset()
-            for sop in history:
+            for sop in list(history):
                 d.dispatch(sop.operation, sop.machine_id)
             return model.project_schedule(d.schedule)
 
@@ -535,11 +542,11 @@ def rerun_trace(tid, trace) -> dict:
         elif a == "QueryArg" and ev["q"] == "min_start_time":
             s.query_min_start(ev["L"])
         elif a == "QueryArg":
-            s.query_arg(ev["q"], ev["j"], ev["p"], ev.get("m", 0))
+            s.query_arg(ev["q"], ev["j"], ev["p"], ev.get("m", 0), after_reject=bool(ev.get("after_reject", False)))
         elif a == "Filter":
             s.apply_filter(ev["names"], ev["L"])
         elif a == "Create":
-            s.create(ev["o"])
+            s.create(ev["o"], detached=bool(ev.get("detached", False)))
         elif a == "Unsub":
             s.unsubscribe(ev["o"])
         elif a == "CreateOrGet":
